@@ -438,6 +438,7 @@ JOBS_BY_NAME = {}
 import mir_jobs_engine  # noqa: E402,F401  (registers the radix-engine jobs in JOBS)
 import mir_jobs_more    # noqa: E402,F401  (registers more radix-common jobs)
 import mir_jobs_state   # noqa: E402,F401  (registers the map-backed state jobs)
+import mir_jobs_fee     # noqa: E402,F401  (registers the fee reserve jobs)
 
 
 def _index():
